@@ -1453,6 +1453,14 @@ class Interp:
             return abs(recv)
         if name == "powi" and isinstance(recv, (int, float)) and len(args) == 1 and isinstance(args[0], int):
             return float(recv) ** args[0]
+        if name in ("max", "min") and len(args) == 1 and isinstance(recv, (int, float)) and isinstance(args[0], (int, float)) and not isinstance(recv, bool):
+            a_, b_ = recv, args[0]
+            if isinstance(a_, float) or isinstance(b_, float):
+                if a_ != a_:
+                    return b_
+                if b_ != b_:
+                    return a_
+            return max(a_, b_) if name == "max" else min(a_, b_)
         if name == "fract" and not args and isinstance(recv, float):
             import math as _m
             return _m.fmod(recv, 1.0) if recv == recv and abs(recv) != float("inf") else float("nan")
@@ -1590,6 +1598,9 @@ class Interp:
 
     def ev_For(self, n, env):
         it = self.ev(n["iter"], env)
+        if isinstance(it, Var) and "ops::Range" in it.path and isinstance(it.fields.get("start", 0), int) and isinstance(it.fields.get("end"), int):
+            hi = it.fields["end"] + (1 if it.path.endswith("RangeInclusive") else 0)
+            it = ListV(list(range(it.fields.get("start", 0), hi)))
         if not isinstance(it, ListV):
             return Unknown("for over non-list")
         for x in list(it.items):
